@@ -74,6 +74,18 @@ func c13Views(doc *gedcom.Document, pointers, tags map[string]bool) map[string]s
 // opposite order. What a view returns must not depend on which other view was
 // read first (a cache that one accessor fills for another with different rules).
 func c13ViewsOrder(doc *gedcom.Document, pointers, tags map[string]bool, rev bool) map[string]string {
+	start := 0
+	if rev {
+		start = 1
+	}
+	return c13ViewsFrom(doc, pointers, tags, start)
+}
+
+// c13ViewsFrom: the accessors of each individual are asked starting with the
+// start-th one (cyclically), so that each of them is the first to be asked of
+// a fresh document at some point.
+func c13ViewsFrom(doc *gedcom.Document, pointers, tags map[string]bool, start int) map[string]string {
+	rev := false
 	pm := c13Paths(doc)
 	v := map[string]string{}
 	list := func(ns interface{}) string {
@@ -137,7 +149,7 @@ func c13ViewsOrder(doc *gedcom.Document, pointers, tags map[string]bool, rev boo
 			if rev {
 				reads[len(reads)-1-x]()
 			} else {
-				reads[x]()
+				reads[(x+start)%len(reads)]()
 			}
 		}
 		for _, sp := range ind.Spouses() {
@@ -199,7 +211,7 @@ func (m *c13Mon) check(cause string) {
 	}
 	live := c13Views(m.doc, m.pointers, m.tags)
 	m.checks++
-	want := c13ViewsOrder(fresh, m.pointers, m.tags, m.checks%2 == 0) // every second time in the opposite order
+	want := c13ViewsFrom(fresh, m.pointers, m.tags, m.checks%8) // a different accessor goes first each time
 	keys := map[string]bool{}
 	for k := range live {
 		keys[k] = true
